@@ -235,3 +235,32 @@ func H03top() {
 	check(ok, "a top-level statement that is not a (complete) module or submodule is rejected")
 	h03Mirror(n, s, nil, 2)
 }
+
+// H03hist: building a tree is a function of that tree alone: a tree that lacks a mandatory
+// substatement is rejected also right after another tree was rejected (or accepted) in the same
+// process - nothing about an earlier build may satisfy a later one's checks.
+func H03hist() {
+	first := []*Statement{
+		h03Stmt("module", "bad1", h03Valid("namespace", "urn:x"), h03Valid("prefix", "p"), h03Stmt("leaf", "a", h03Valid("type", "string"), h03Stmt("bogus", "x"))),
+		h03Stmt("module", "bad2", h03Valid("namespace", "urn:x"), h03Valid("prefix", "p"), h03Stmt("import", "i", h03Valid("prefix", "q"), h03Stmt("bogus", "x"))),
+		h03Stmt("module", "good", h03Valid("namespace", "urn:x"), h03Valid("prefix", "p"), h03Stmt("leaf", "a", h03Valid("type", "string"))),
+		h03Stmt("submodule", "bad3", h03Valid("belongs-to", "m"), h03Stmt("typedef", "t", h03Valid("type", "string"), h03Stmt("bogus", "x"))),
+	}
+	second := []*Statement{
+		h03Stmt("module", "m2", h03Valid("namespace", "urn:y"), h03Valid("prefix", "p"), h03Stmt("container", "c", h03Stmt("leaf", "b"))),        // leaf without type
+		h03Stmt("module", "m3", h03Stmt("container", "c", h03Stmt("leaf", "b")), h03Valid("namespace", "urn:y"), h03Valid("prefix", "p")),        // the same, written first
+		h03Stmt("module", "m4", h03Valid("namespace", "urn:y"), h03Valid("prefix", "p"), h03Stmt("import", "i")),                                  // import without prefix
+		h03Stmt("module", "m5", h03Valid("prefix", "p")),                                                                                          // module without namespace
+		h03Stmt("submodule", "s6", h03Stmt("leaf", "z", h03Valid("type", "string"))),                                                             // submodule without belongs-to
+		h03Stmt("module", "m7", h03Valid("namespace", "urn:y"), h03Valid("prefix", "p"), h03Stmt("typedef", "t")),                                 // typedef without type
+	}
+	a := first[symChoice(len(first))]
+	b := second[symChoice(len(second))]
+	rounds := 1 + symChoice(2)
+	for i := 0; i < rounds; i++ {
+		buildASTWithTypeDict(a, newTypeDictionary())
+	}
+	_, err := buildASTWithTypeDict(b, newTypeDictionary())
+	reach("built")
+	check(err != nil, "an absent mandatory substatement is always rejected, whatever was built before")
+}
